@@ -27,4 +27,16 @@ PROPS = {
             {"name": "TestC10", "quick": 800, "thorough": 20000},
         ],
     },
+    "C12": {
+        "level": "exploration",
+        "tests": [
+            {"name": "TestC12", "quick": 500, "thorough": 8000},
+        ],
+    },
+    "C06": {
+        "level": "exploration",
+        "tests": [
+            {"name": "TestC06", "quick": 1500, "thorough": 40000},
+        ],
+    },
 }
